@@ -873,6 +873,9 @@ class Fxp():
             if val_dtype == object:       
                 # convert each element to int
                 new_val = np.array(list(map(int, new_val.flatten())), dtype=val_dtype).reshape(new_val.shape)
+                if self.n_word < _n_word_max_:
+                    # the codes fit in the word again: they are kept in numpy integers
+                    new_val = new_val.astype(np.int64 if self.signed else np.uint64)
             
             if index is not None:
                 self.val[index] = new_val
